@@ -41,7 +41,8 @@ def _m():
 
 class Vocab(object):
     def __init__(self, nvars=4, flags=2, small=True, mem=True, calls=False, rich=False, ncounters=3,
-                 exits=("ret", "reg", "loc", "int"), mem_bases=("sp", "data", "abs"), slices=True, observe=0):
+                 exits=("ret", "reg", "loc", "int"), mem_bases=("sp", "data", "abs"), slices=True, observe=0,
+                 offs=None, mem_widths=None):
         m = _m()
         self.data = [m.ExprId(n, 32) for n in ("EAX", "EBX", "ECX", "EDX")[:nvars]]
         self.flags = [m.ExprId(n, 1) for n in ("zf", "cf")[:flags]]
@@ -56,6 +57,10 @@ class Vocab(object):
         self.exits = list(exits)
         self.mem_bases = list(mem_bases)
         self.slices = slices
+        # offs / mem_widths: pointer offsets and cell widths (default: overlapping offsets, widths 8/16/32);
+        # offs multiple of 4 with mem_widths [32] gives cells that are syntactically equal or disjoint
+        self.offs = list(offs) if offs is not None else OFFS
+        self.mem_widths = list(mem_widths) if mem_widths is not None else [32, 32, 32, 8, 16]
         # observe = n > 0: with probability 1/n every exit block of a graph first stores all the variables to
         # fixed absolute cells (0x2000 + 4 * i), which makes every register's final value a memory effect
         self.observe = observe
@@ -114,7 +119,7 @@ def _int(v, w):
 def pointer(draw, voc):
     m = _m()
     kind = draw(st.sampled_from(voc.mem_bases))
-    off = draw(st.sampled_from(OFFS))
+    off = draw(st.sampled_from(voc.offs))
     if kind == "abs":
         return _int(0x1000 + (off & 0xff), 32)
     base = voc.sp if kind == "sp" or not voc.data else draw(st.sampled_from(voc.data))
@@ -127,7 +132,7 @@ def pointer(draw, voc):
 def mem_cell(draw, voc, w=None):
     m = _m()
     if w is None:
-        w = draw(st.sampled_from([32, 32, 32, 8, 16]))
+        w = draw(st.sampled_from(voc.mem_widths))
     return m.ExprMem(draw(pointer(voc)), w)
 
 
@@ -139,7 +144,7 @@ def atom(draw, voc, w, mem=True):
     cands = voc.by_size(w)
     if k < 6 and cands:
         return draw(st.sampled_from(cands))
-    if k < 8 and voc.mem and mem and w in (8, 16, 32):
+    if k < 8 and voc.mem and mem and w in voc.mem_widths:
         return draw(mem_cell(voc, w))
     if k < 9 and voc.slices:
         wider = [v for v in voc.vars() if v.size > w]
@@ -1042,3 +1047,59 @@ def compare_runs(orig_cfg, new_cfg, head, states=None, mode="final", regs=(), ou
                         "state %d: %s = 0x%x at the exit of the original, 0x%x in the %s graph (read through %s) %s"
                         % (k, name, v1, v2, word, through, paths))
     return None
+
+
+# ----------------------------------------------------------------------------------------------
+# functions lifted from compiled C (vlib.ccorpus)
+
+def compile_functions(seed, n, arch="x86_32", opts=("-O1", "-O2", "-Os", "-O0"), load_addr=0x401000):
+    """-> (list of {"tag", "arch", "opt", "addr", "code": hex}, dropped Counter).  One clang run per
+    optimisation level over the same n generated functions + the fixed ones; scratch files under /var/tmp."""
+    import collections
+    import shutil
+    import tempfile
+    from vlib import ccorpus
+    dropped = collections.Counter()
+    out = []
+    funcs = ccorpus.fixed_functions(arch) + ccorpus.gen_functions(seed, n, arch)
+    work = tempfile.mkdtemp(prefix="irgraphgen-", dir="/var/tmp")
+    try:
+        for opt in opts:
+            res, err = ccorpus.compile_batch(funcs, arch, opt, work, load_addr, tag="g%d" % seed)
+            for r in res:
+                if r["code"] is None:
+                    dropped["lifted:" + r["reason"]] += 1
+                    continue
+                out.append({"tag": r["tag"], "arch": arch, "opt": opt, "addr": load_addr, "code": r["code"].hex()})
+    finally:
+        shutil.rmtree(work, ignore_errors=True)
+    return out, dropped
+
+
+def lift_function(fn):
+    """fn: {"arch", "addr", "code": hex} -> (lifter (model call), ircfg, head LocKey)"""
+    import warnings
+    from miasm.analysis.machine import Machine
+    from miasm.core.locationdb import LocationDB
+    from miasm.core.bin_stream import bin_stream_str
+    with warnings.catch_warnings():
+        warnings.simplefilter("ignore")
+        loc_db = LocationDB()
+        machine = Machine(fn["arch"])
+        bs = bin_stream_str(bytes.fromhex(fn["code"]), base_address=fn["addr"])
+        mdis = machine.dis_engine(bs, loc_db=loc_db)
+        asmcfg = mdis.dis_multiblock(fn["addr"])
+        lifter = machine.lifter_model_call(loc_db)
+        ircfg = lifter.new_ircfg_from_asmcfg(asmcfg)
+    head = loc_db.get_offset_location(fn["addr"])
+    return lifter, ircfg, head
+
+
+def lifted_states(lifter, n=8, init_suffix=None):
+    """states for lifted code: every architecture register gets an explicit value (and NAME_init the same)"""
+    names = [(r.name, r.size) for r in lifter.arch.regs.all_regs_ids]
+    out = []
+    for k in range(n):
+        st_ = init_state(k + 100, init_suffix=init_suffix, names=names)
+        out.append(st_)
+    return out
